@@ -119,7 +119,8 @@ def run(ctx):
             continue
         cfit = kind == "cfit"
         n, nmc = 83, 160
-        data = lik.make_sample(cfg, card, n, rng, "positive" if i % 2 else "ones", cfit=cfit)
+        rot = i + i // len(MODEL_NAMES)  # de-aliased case counter: conditions on it rotate over the models from round to round
+        data = lik.make_sample(cfg, card, n, rng, "positive" if rot % 2 else "ones", cfit=cfit)
         phsp = lik.make_sample(cfg, card, nmc, rng, ["ones", "positive", "mixed_mild"][i % 3], cfit=cfit)
         bg = None if cfit else lik.make_sample(cfg, card, 17, rng, "ones")
         try:
@@ -190,7 +191,7 @@ def run(ctx):
         except Exception as e:
             ctx.violation("gradient independent of batch size", ctx.exc_witness(e, **desc()), mechanism="nll_grad raises with another batch size (%s)" % model)
         # (b) Hessian vs FD of the library gradient
-        do_hess = i % 2 == 0 or ctx.tier == "thorough"
+        do_hess = (i // len(MODEL_NAMES) + i) % 2 == 0 or ctx.tier == "thorough"  # every model gets a Hessian case within 16 cases
         H = None
         if do_hess:
             try:
@@ -220,6 +221,7 @@ def run(ctx):
                 ctx.dev("Hessian vs FD (rel to max|H|)", dev, 1e-4)
                 ctx.check("Hessian == d grad/dx (FD of nll_grad)", dev <= 1e-4, lambda: dict(desc(), entry=[tv[jj[0]], tv[jj[1]]], lib=H[jj], fd=Hfd[jj], rel=dev),
                           mechanism="Hessian (%s)" % model)
+                ctx.covered("hessian_model", model)
                 ctx.check("Hessian symmetric", float(np.max(np.abs(H - H.T))) <= 1e-8 * hmax, lambda: dict(desc(), asym=float(np.max(np.abs(H - H.T)))), mechanism="Hessian symmetry (%s)" % model)
                 okv = abs(float(v3) - v0) <= 1e-9 * (1 + abs(v0)) and np.all(np.abs(g3 - g) <= 1e-7 * (np.abs(g) + 1e-3 * gmax))
                 ctx.check("value alongside gradient/Hessian == stand-alone value", bool(okv), lambda: dict(desc(), call=v0, hess_value=float(v3), dg=float(np.max(np.abs(g3 - g)))),
@@ -230,7 +232,7 @@ def run(ctx):
                 ctx.violation("Hessian == d grad/dx (FD of nll_grad)", ctx.exc_witness(e, **desc()), mechanism="nll_grad_hessian raises (%s)" % model)
                 H = None
         # (c) Hessian-vector product
-        if H is not None and (i % 4 == 0 or ctx.tier == "thorough") and model in ("default", "extended", "cached_amp", "simple", "cached_int"):
+        if H is not None and (rot % 2 == 0 or ctx.tier == "thorough") and model in ("default", "extended", "cached_amp", "simple", "cached_int"):
             p = rng.normal(size=len(tv))
             try:
                 with quiet():
@@ -248,7 +250,7 @@ def run(ctx):
             except Exception as e:
                 ctx.violation("Hessian-vector product == H@p", ctx.exc_witness(e, **desc()), mechanism="grad_hessp raises (%s)" % model)
         # (f) transformed coordinates
-        if i % 4 in (2, 3) or ctx.tier == "thorough":
+        if rot % 4 in (2, 3) or ctx.tier == "thorough":
             bnd = {}
             for k_ in rng.choice(tv, size=min(3, len(tv)), replace=False):
                 v_ = float(vm.variables[k_].numpy())
@@ -298,7 +300,7 @@ def run(ctx):
                     ctx.dev("transformed Hessian", dev, 1e-4)
                     ctx.check("transformed coordinates: Hessian", dev <= 1e-4, lambda: dict(desc(), bounds={k_: list(v_) for k_, v_ in bnd.items()}, rel=dev),
                               mechanism="trans_f_grad_hess (%s)" % model)
-                    if model in ("default", "simple") and i % 4 == 1:
+                    if model in ("default", "simple", "extended", "cached_amp"):
                         f_p = vm.trans_grad_hessp(fcn.grad_hessp)
                         p = rng.normal(size=len(tv))
                         with quiet():
